@@ -83,7 +83,7 @@ class SRv6SIDInformation(TLV):
         tlvs = []
 
         # reserved_1 = data[0:1]  # Note: First byte is reserved
-        srv6_sid_value = str(netaddr.IPAddress(int(binascii.b2a_hex(data[1:17]), 16)))
+        srv6_sid_value = str(netaddr.IPAddress(int(binascii.b2a_hex(data[1:17]), 16), 6))
         srv6_service_sid_flags = ord(data[17:18])
         srv6_endpoint_behavior = struct.unpack('!H', data[18:20])[0]
         # reserved_2 = data[20:21]  # Note: Also reserved
